@@ -126,6 +126,10 @@ def generate(rng, i, tier):
         # the match/no-match overrides interact with every other flag: give them a third of the weight
         val = rng.choice(["match", "no-match", "stop,match", "no-match,fail"]) if rng.random() < 0.35 else rng.choice(OVERRIDES)
         override = {"member": rng.randrange(k), "value": val}
+    # standalone: another CsvPath that SHARES this run's Config object runs first, with an override that contradicts the policy
+    pre_shared = rng.choice(["no-raise,no-stop,no-fail,no-print", "raise", "print,fail", "stop", "no-print", "fail,stop"]) if (not managed and rng.random() < 0.25) else None
+    # managed: the erroring component lives in another named-paths group and is pulled in with import()
+    via_import = bool(managed and rng.random() < 0.15)
     tail = None
     if cand and rng.random() < 0.3:
         # a stop() or skip() later on some line: errors already raised on that line must still be handled
@@ -136,6 +140,8 @@ def generate(rng, i, tier):
         "seed": rng.getrandbits(32),
         "policy": pol,
         "deco": "empty_term" if rng.random() < 0.2 else None,
+        "pre_shared": pre_shared,
+        "via_import": via_import,
         "tail": tail,
         "kind": kind,
         "nrec": nrec,
@@ -163,6 +169,10 @@ def reductions(sc):
         yield with_(sc, tail=None)
     if sc.get("deco"):
         yield with_(sc, deco=None)
+    if sc.get("pre_shared"):
+        yield with_(sc, pre_shared=None)
+    if sc.get("via_import"):
+        yield with_(sc, via_import=False)
     for j, F in enumerate(sc["planted"]):
         for l in F:
             c = with_(sc)
@@ -310,7 +320,12 @@ def member_text(sc, j, file=""):
         head += f" validation-mode:{ov['value']}"
     t = sc.get("tail")
     tail = f" line_number() == {t['line']} -> {t['kind']}()" if t else ""
-    return f'~{head}~ ${file}[{sc["scan"]}][ push("pre", line_number()) {provoker(sc["kind"], j, sc.get("deco"))}{tail} push("post", line_number()) ]'
+    prov = f'import("lib{j}")' if sc.get("via_import") else provoker(sc["kind"], j, sc.get("deco"))
+    return f'~{head}~ ${file}[{sc["scan"]}][ push("pre", line_number()) {prov}{tail} push("post", line_number()) ]'
+
+
+def lib_text(sc, j):
+    return f'$[*][ {provoker(sc["kind"], j, sc.get("deco"))} ]'
 
 
 def execute(sc):
@@ -332,6 +347,17 @@ def execute(sc):
         if not sc["managed"]:
             cfg = Config()
             cfg.csvpath_errors_policy = list(sc["policy"])
+            if sc.get("pre_shared"):
+                pre_sc = dict(sc, override={"member": 0, "value": sc["pre_shared"]}, tail=None)
+                try:
+                    with ops.quiet():
+                        CsvPath(config=cfg).fast_forward(member_text(pre_sc, 0, "src/f.csv"))
+                except Exception as e:  # noqa: BLE001
+                    if not ops.in_repo(e):
+                        raise
+                out.runs += 1
+                out.probe("an earlier CsvPath sharing the Config object ran with a contradicting override")
+                extfuncs.arm(plan=plan)
             with ops.quiet():
                 cp = CsvPath(config=cfg)
             tp = TestPrinter()
@@ -356,6 +382,9 @@ def execute(sc):
             with ops.quiet():
                 cs.file_manager.add_named_file(name="f", path="src/f.csv")
                 cs.paths_manager.add_named_paths(name="g", paths=[member_text(sc, j) for j in range(k)])
+                if sc.get("via_import"):
+                    for j in range(k):
+                        cs.paths_manager.add_named_paths(name=f"lib{j}", paths=[lib_text(sc, j)])
             try:
                 ops.run_group(cs, sc["method"], "g")
             except Exception as e:  # noqa: BLE001
@@ -449,8 +478,10 @@ def execute(sc):
         for F in sc["planted"]:
             for l in F:
                 pos.append("first" if S and l == S[0] else "last" if S and l == S[-1] else "after_blank" if (l - 1) in sc["blanks"] else "mid")
-        out.sig = [sc["policy"], sc["kind"], how, sorted(set(pos)), facts["override"], len(sc["planted"]), sc["tail"]["kind"] if sc.get("tail") else None]
+        out.sig = [sc["policy"], sc["kind"], how, sorted(set(pos)), facts["override"], len(sc["planted"]), sc["tail"]["kind"] if sc.get("tail") else None, bool(sc.get("via_import")), sc.get("pre_shared")]
         out.probe("erroring subtree contains an empty-string term", bool(sc.get("deco")))
+        out.probe("erroring component pulled in with import()", bool(sc.get("via_import")))
+        out.probe("an earlier CsvPath sharing the Config object ran with a contradicting override", False)
         out.probe("stop()/skip() later on an offending line", bool(sc.get("tail")) and any(sc["tail"]["line"] in F for F in sc["planted"]))
         out.nontrivial = evaluated_any
         out.probe("offending line is the last scanned line", "last" in pos)
